@@ -162,6 +162,7 @@ func CheckSign(e *Env, prop string) (int, error) {
 		"sampled_distinct_nontrivial_histories": sampledNontrivial,
 		"enumerated_distinct_nontrivial_cases":  a.EnumDistinctNontrivial,
 		"rule":                                  rule,
+		"bounds_depth":                          fmt.Sprintf("%d (the stated bounds on history length / callers / operations are those of depth 1, the quick tier; the thorough tier runs at depth 2: twice the history length, up to 8 callers x 8 operations)", e.Depth),
 		"samples": e.samplesOrFetch(traced, 3, func() *Job {
 			return &Job{Bin: bin, Variant: "asm", World: "sign", Prop: prop, From: 0, N: 4, Extra: []string{"-trace"}}
 		}),
